@@ -664,22 +664,44 @@ pub fn c10(big: bool) -> BoxedStrategy<Case> {
     let base = OpWeights { send: 6, call: 6, ping: 2, convert: 2, yield_: 4, sleep: 60, give: 0, drop: 6, stop: 5, halt: 2, try_stop: 2, max_sleep: 40, ..MSG_WEIGHTS };
     let timer_in_handler = (any_timer(50), h()).prop_map(|(t, h)| ClientOp::Call { h, work: vec![Step::AddTimer(t)] });
     let op = mixed_ops(base, vec![(8, timer_in_handler.boxed())]);
-    (spawn, vec(any_timer(50).prop_map(Step::AddTimer), 0..=4), 1usize..=2)
-        .prop_flat_map(move |(spawn, started, n)| {
+    let cause = prop_oneof![
+        8 => Just(Cause::None),
+        1 => prop_oneof![Just(FailHow::Err), Just(FailHow::Panic)].prop_map(Cause::StartFail),
+        2 => (0u32..6).prop_map(Cause::HandlerPanic),
+        1 => Just(Cause::StopPanic),
+        2 => (1u32..12).prop_map(Cause::Cancel),
+        2 => (1u32..6).prop_map(Cause::TimeoutFail),
+    ];
+    (spawn, vec(any_timer(50).prop_map(Step::AddTimer), 0..=4), 1usize..=2, cause)
+        .prop_flat_map(move |(spawn, started, n, cause)| {
             let owning = spawn.owning();
-            (Just(spawn), Just(started), grants(n, owning, 1), vec(vec(op.clone(), 1..=max_ops), n..=n), schedule(32))
+            (Just(spawn), Just((started, cause)), grants(n, owning, 1), vec(vec(op.clone(), 1..=max_ops), n..=n), schedule(32))
         })
-        .prop_map(|(spawn, started, grants, clients, schedule)| {
+        .prop_map(|(mut spawn, (started, cause), grants, clients, schedule)| {
+            // termination "by any cause": failures too
+            let mut faults = vec![];
+            match cause {
+                Cause::None => {}
+                Cause::StartFail(how) => faults.push(Fault::StartFail { actor: 0, inc: 0, how }),
+                Cause::HandlerPanic(kth) => faults.push(Fault::HandlerPanic { actor: 0, kth }),
+                Cause::StopPanic => faults.push(Fault::StopPanic { actor: 0 }),
+                Cause::Cancel(j) => faults.push(Fault::CancelActor { actor: 0, before_poll: j }),
+                Cause::TimeoutFail(t) => {
+                    let (mailbox, owning) = (spawn.mailbox(), spawn.owning());
+                    spawn = SpawnSpec::Build { mailbox, strategy: RStrat::Default, timeout: Some(t), fail_on_timeout: true, owning };
+                }
+            }
             let mut c = Case {
                 family: Family::C10,
                 actors: one_actor(spawn, Behavior { started, ..Default::default() }),
                 default_beh: vec![],
                 grants,
                 clients,
-                faults: vec![],
+                faults,
                 schedule,
                 settle: 0,
             };
+            avoid_exact_timeout(&mut c);
             // at most one repeating timer with a slow handler (load < 1): the actor must be able
             // to keep up with its own timers
             let mut slow_seen = false;
@@ -785,7 +807,7 @@ pub fn c13(big: bool) -> BoxedStrategy<Case> {
         .prop_map(|(spawn, (started, finished, stopped), grants, clients, schedule)| {
             let mut c = Case {
                 family: Family::C13,
-                actors: one_actor(spawn, Behavior { started, finished, stopped, ..Default::default() }),
+                actors: one_actor(spawn, Behavior { started, finished, stopped: stopped.clone(), aux_work: stopped, ..Default::default() }),
                 default_beh: vec![],
                 grants,
                 clients,
@@ -805,6 +827,7 @@ pub fn c17(big: bool) -> BoxedStrategy<Case> {
         2 => Just(SpawnSpec::SpawnOwning),
         1 => Just(SpawnSpec::SpawnDefaultOwning),
         4 => mailbox().prop_map(|mailbox| SpawnSpec::Build { mailbox, strategy: RStrat::Default, timeout: None, fail_on_timeout: false, owning: true }),
+        2 => (mailbox(), 2u32..6, any::<bool>()).prop_map(|(mailbox, t, fail_on_timeout)| SpawnSpec::Build { mailbox, strategy: RStrat::Default, timeout: Some(t), fail_on_timeout, owning: true }),
         1 => proptest::option::of(mailbox()).prop_map(|builder| SpawnSpec::Stream { builder, owning: true }),
     ];
     let cause = prop_oneof![
@@ -827,8 +850,16 @@ pub fn c17(big: bool) -> BoxedStrategy<Case> {
                 Cause::Cancel(j) => faults.push(Fault::CancelActor { actor: 0, before_poll: j }),
                 _ => {}
             }
+            let mut stopped = stopped;
+            if let Some((t, _)) = spawn.timeout() {
+                // a stopped() callback that takes longer than the handler timeout
+                if stopped.iter().any(|s| matches!(s, Step::Sleep(_))) {
+                    stopped.push(Step::Sleep(t + 1));
+                }
+            }
             let beh = Behavior { stopped, ..Default::default() };
             let mut c = Case { family: Family::C17, actors: one_actor(spawn, beh.clone()), default_beh: vec![beh], grants, clients, faults, schedule, settle: 0 };
+            avoid_exact_timeout(&mut c);
             sanitize(&mut c);
             finalize(c)
         })
@@ -882,7 +913,7 @@ pub fn c15(big: bool) -> BoxedStrategy<Case> {
 pub fn c16(big: bool) -> BoxedStrategy<Case> {
     let max_ops = if big { 12 } else { 8 };
     let reg = prop_oneof![Just(ChildReg::Unit), Just(ChildReg::Msg0), Just(ChildReg::Msg1)];
-    let child = (any::<u8>(), reg.clone(), proptest::bool::weighted(0.25), 0u8..2, proptest::option::weighted(0.3, mailbox()));
+    let child = (any::<u8>(), (reg.clone(), proptest::option::weighted(0.25, reg.clone())), proptest::bool::weighted(0.25), 0u8..2, proptest::option::weighted(0.3, mailbox()));
     let bcast = (reg, h(), any::<bool>()).prop_map(|(reg, h, call)| {
         let work = vec![Step::SendToChildren { reg, tag: 0 }];
         if call { ClientOp::Call { h, work } } else { ClientOp::Send { h, work } }
@@ -905,7 +936,8 @@ pub fn c16(big: bool) -> BoxedStrategy<Case> {
         .prop_map(|(kids, cause, root_spawn, grants, clients, schedule)| {
             let mut actors = vec![ActorSpec { kind: 0, spawn: root_spawn, parent: None, beh: Behavior::default(), peer: None }];
             let mut depths = vec![0usize];
-            for (psel, under, outside, kind, mb) in kids {
+            for (psel, (under, also), outside, kind, mb) in kids {
+                let also_under = also.filter(|a| *a != under);
                 // parent among the existing nodes with depth < 3
                 let cands: Vec<usize> = (0..actors.len()).filter(|i| depths[*i] < 3).collect();
                 let parent = cands[(psel as usize * cands.len()) >> 8];
@@ -914,7 +946,7 @@ pub fn c16(big: bool) -> BoxedStrategy<Case> {
                     None => SpawnSpec::Spawn,
                     Some(mailbox) => SpawnSpec::Build { mailbox, strategy: RStrat::Default, timeout: None, fail_on_timeout: false, owning: false },
                 };
-                actors.push(ActorSpec { kind, spawn, parent: Some(ChildOf { parent, under, outside }), beh: Behavior::default(), peer: None });
+                actors.push(ActorSpec { kind, spawn, parent: Some(ChildOf { parent, under, outside, also_under }), beh: Behavior::default(), peer: None });
             }
             let mut faults = vec![];
             match cause {
@@ -1100,7 +1132,7 @@ pub fn c06(big: bool) -> BoxedStrategy<Case> {
             let owning = spawn.owning();
             let mut actors = one_actor(spawn, Behavior { started, ..Default::default() });
             for (under, outside) in kids {
-                actors.push(ActorSpec { kind: 0, spawn: SpawnSpec::Spawn, parent: Some(ChildOf { parent: 0, under, outside }), beh: Behavior::default(), peer: None });
+                actors.push(ActorSpec { kind: 0, spawn: SpawnSpec::Spawn, parent: Some(ChildOf { parent: 0, under, outside, also_under: None }), beh: Behavior::default(), peer: None });
             }
             let mut grants = vec![];
             if owning {
